@@ -739,7 +739,7 @@ def c11_cache_flush_rule(ctx):
         q.witness(pre, f"path {i}: flush reachable")
         # address records are per link: an A/AAAA record is only flushed by a record received on the same interface
         from mirslice import ENUM_IDS
-        ids = [z3.BitVecVal(ENUM_IDS.setdefault(k, len(ENUM_IDS) + 1), 16) for k in ("RRType::A", "RRType::AAAA")]
+        ids = [z3.BitVecVal(ENUM_IDS.setdefault(k, 40000 + len(ENUM_IDS)) & 0xFFFF, 16) for k in ("RRType::A", "RRType::AAAA")]
         for vid, vname in zip(ids, ("A", "AAAA")):
             if not ex.feasible(pre + [rty == vid]):
                 continue
@@ -955,6 +955,89 @@ def c19_hostname_backoff(ctx):
     return q.result()
 
 
+def c19_hostname_timeout_guard(ctx):
+    q = Q("c19_hostname_timeout_guard", ["Zeroconf::exec_command_resolve_hostname::{closure} (is the next re-run still before the resolver's timeout?)", "Zeroconf::exec_command_resolve_hostname (operand of add_retransmission)"],
+          "every scheduled instant and every timeout (u64 x u64)", ["the closure is matched to the enclosing function's local by the captured variable's name (MIR debug info)"])
+    f = ctx.funcs[ctx.fn("::exec_command_resolve_hostname")]
+    cands = [n for n in ctx.funcs if "::exec_command_resolve_hostname::{closure#" in n and ctx.funcs[n].ret == "bool"
+             and len(ctx.funcs[n].args) == 2 and ctx.funcs[n].args[1][1] == "u64"]
+    if len(cands) != 1:
+        q.unknown.append(f"timeout guard closure: {len(cands)} candidates")
+        return q.result()
+    c = ctx.funcs[cands[0]]
+    caps = {k: v for k, v in c.debug.items() if re.search(r"_1\.0: &?u64", v)}
+    if len(caps) != 1:
+        q.unknown.append(f"timeout guard closure captures {sorted(caps)} (expected one u64)")
+        return q.result()
+    (cname, cplace), = caps.items()
+    cap, to = z3.BitVec("scheduled_for", 64), z3.BitVec("timeout", 64)
+    by_ref = "&u64" in cplace
+    env = Tup([Ref(("capcell", 0), (), mutable=False)]) if by_ref else Tup([BV(cap, 64)])
+    ex = Explorer(ctx.funcs, ctx.consts, max_paths=20)
+    rets = [p for p in ex.explore(c.name, args=[env, BV(to, 64)], objs={("capcell", 0): {(): BV(cap, 64)}}) if p.outcome == "return"]
+    if not rets:
+        q.unknown.append("timeout guard closure not translated")
+    for i, p in enumerate(rets):
+        if not isinstance(p.ret, BoolV):
+            q.unknown.append("timeout guard closure: result not boolean")
+            continue
+        q.valid(p.cond, p.ret.e == z3.ULT(cap, to), f"closure path {i}: the re-run is kept iff (captured instant) < timeout", p.ret.taint)
+    # the captured instant is the one the re-run is scheduled for
+    parent_local = f.debug.get(cname)
+    sched = [re.search(r"add_retransmission\((?:copy|move) _\d+, (?:copy|move) (_\d+),", t) for _, t in f.blocks.values()]
+    sched = [m.group(1) for m in sched if m]
+    if not sched:
+        q.unknown.append("add_retransmission call not found in exec_command_resolve_hostname")
+    elif parent_local not in sched:
+        q.fail.append(("the guard that stops a hostname search at its timeout compares the timeout with a different instant than the one the next query is scheduled for: "
+                       "a query is queued past the timeout (and, with the resolver gone, re-queues itself for ever)",
+                       f"guard captures `{cname}` ({parent_local}); add_retransmission is given {sched}"))
+    else:
+        q.nontrivial += 1
+    return q.result()
+
+
+def c10_known_answer_wire_ttl(ctx):
+    q = Q("c10_known_answer_wire_ttl", ["DnsOutgoing::add_answer_box (known answers of a query)", "DnsOutPacket::write_record (TTL written for a record added at time t)", "Zeroconf::send_query_vec (window: update_ttl to add_answer_box)"],
+          "every path of add_answer_box; the time tag stored with a known answer", ["calls opaque"])
+    g = ctx.funcs[ctx.fn("::add_answer_box")]
+    ex = Explorer(ctx.funcs, ctx.consts, max_paths=20)
+    n = 0
+    for i, p in enumerate(ex.explore(g.name)):
+        for e in p.events:
+            if e[0] == "call" and e[1].endswith("::push") and len(e[2]) == 2 and isinstance(e[2][1], Tup) and len(e[2][1].items) == 2:
+                n += 1
+                t = e[2][1].items[1]
+                if not isinstance(t, BV):
+                    q.unknown.append("time tag of a known answer not resolved")
+                    continue
+                # send_query_vec has already rewritten the TTL to the remaining time (c10_update_ttl); write_record subtracts the age
+                # again for every record whose time tag is not 0 (get_remaining_ttl): the tag of a known answer must be 0
+                q.valid(p.cond, t.e == 0, "a known answer is stored with time tag 0, so its already-rewritten TTL is written as is (not aged twice)", t.taint)
+    q.nontrivial += n
+    if n == 0:
+        q.unknown.append("add_answer_box: push of (record, time) not found")
+    # write_record writes record.ttl untouched exactly when the tag is 0
+    w = ctx.funcs[ctx.fn("::write_record")]
+    nowv = z3.BitVec("time_tag", 64)
+    ex2 = Explorer(ctx.funcs, ctx.consts, max_paths=200)
+    seen0 = seen1 = 0
+    for p in ex2.explore(w.name, args=[None, None, BV(nowv, 64)]):
+        calls = [e[1].split("::")[-1] for e in p.events if e[0] == "call"]
+        if "write_u32" not in calls:
+            continue
+        aged = "get_remaining_ttl" in calls[:calls.index("write_u32")]
+        if aged:
+            seen1 += 1
+            q.valid(p.cond, nowv != 0, "write_record ages the TTL only for records with a non-zero time tag", allow_havoc=True)
+        else:
+            seen0 += 1
+            q.valid(p.cond, nowv == 0, "write_record writes the stored TTL unchanged only for time tag 0", allow_havoc=True)
+    if not (seen0 and seen1):
+        q.unknown.append(f"write_record: expected both TTL paths (found {seen0}/{seen1})")
+    return q.result()
+
+
 def c19_resolve_retry(ctx):
     q = Q("c19_resolve_retry", ["Zeroconf::exec_command_resolve", "Zeroconf::add_pending_resolve"],
           "every try_count: u16, every clock reading < 2^62", ["clock < 2^62", "unmodelled calls are havoc"])
@@ -966,6 +1049,11 @@ def c19_resolve_retry(ctx):
     for p in paths:
         if p.outcome.startswith("panic"):
             q.unsat(p.cond + [z3.ULT(tc, 3)], "exec_command_resolve panics: " + p.outcome[6:50])
+        forget = [e for e in p.events if e[0] == "call" and e[1].endswith("HashSet::<String>::remove")]
+        if forget:
+            q.fail.append(("exec_command_resolve takes the instance off the pending list itself: the mark that prevents a second chain of follow-ups for an instance that is still "
+                           "unresolved is lost (three more queries on every later trigger)", f"at {forget[0][3]}"))
+            break
     for i, p in enumerate(hits):
         _, _, a, _ = p.events[-1]
         T, cmd = a[1], a[2]
@@ -2142,7 +2230,7 @@ def c06_answer_only_when_announced(ctx):
         paths = ex.explore(f.name, start_block=start, locals_=loc)
         if ex.cut_paths:
             q.unknown.append(f"{tag}: path budget exhausted")
-        ann = z3.BitVecVal(ENUM_IDS.setdefault("ServiceStatus::Announced", len(ENUM_IDS) + 1), 16)
+        ann = z3.BitVecVal(ENUM_IDS.setdefault("ServiceStatus::Announced", 40000 + len(ENUM_IDS)) & 0xFFFF, 16)
         n_ans = 0
         for i, p in enumerate(paths):
             if not (p.outcome.startswith("stop:") or p.outcome == "return" or p.outcome.startswith("cut:loop")):
@@ -2162,6 +2250,56 @@ def c06_answer_only_when_announced(ctx):
         if n_ans == 0:
             q.unknown.append(f"{tag}: no path adds an answer")
     q.fail = q.fail[:6]
+    return q.result()
+
+
+def c06_address_families_by_qtype(ctx):
+    q = Q("c06_address_families_by_qtype", ["Zeroconf::handle_query (window: one pass of the address-question loop over my_services)"],
+          "one pass of the loop for an arbitrary service; question type: any RRType variant; every path that adds an address answer or gives up",
+          ["window slice", "the question type is the local `qtype` (symbolic over all variants)", "name comparison and address getters are opaque"])
+    f = ctx.funcs[ctx.fn("::handle_query")]
+    ql = f.debug.get("qtype")
+    win = None
+    for b, (stmts, t) in f.blocks.items():
+        m = re.match(r"(_\d+) = <std::collections::hash_map::Values<'_, String, ServiceInfo> as Iterator>::next\(", t)
+        if m:
+            for b2, (st2, t2) in f.blocks.items():
+                if any(re.search(r"\(\(%s as Some\)\.0" % m.group(1), x) for x in st2):
+                    # the address loop is the one from which get_addrs_on_my_intf_v4 is reachable before the next service
+                    ex0 = Explorer(ctx.funcs, ctx.consts, stop_calls=("Values<'_, String, ServiceInfo> as Iterator>::next",), max_paths=1500)
+                    ps = ex0.explore(f.name, start_block=b2, locals_={m.group(1): Adt("Some", [Ref(("service", 9), (), mutable=False)])})
+                    if any(e[0] == "call" and e[1].endswith("get_addrs_on_my_intf_v4") for p in ps for e in p.events):
+                        win = (b2, m.group(1))
+    if win is None or not ql or not re.fullmatch(r"_\d+", ql):
+        q.unknown.append("anchor not found: the address-question loop of handle_query / the local `qtype`")
+        return q.result()
+    from mirslice import ENUM_IDS
+    qt = z3.BitVec("qtype", 16)
+    ex = Explorer(ctx.funcs, ctx.consts, stop_calls=("Values<'_, String, ServiceInfo> as Iterator>::next",), max_paths=3000)
+    paths = ex.explore(f.name, start_block=win[0], locals_={win[1]: Adt("Some", [Ref(("service", 9), (), mutable=False)]), ql: BV(qt, 16)})
+    if ex.cut_paths:
+        q.unknown.append("path budget exhausted in the address-question loop")
+    ids = {k: z3.BitVecVal(ENUM_IDS.setdefault("RRType::" + k, 40000 + len(ENUM_IDS)) & 0xFFFF, 16) for k in ("A", "AAAA", "ANY")}
+    n = 0
+    for i, p in enumerate(paths):
+        if not (p.outcome.startswith("stop:") or p.outcome.startswith("cut:loop")):
+            continue
+        calls = [e[1].split("::")[-1] for e in p.events if e[0] == "call"]
+        v4, v6 = "get_addrs_on_my_intf_v4" in calls, "get_addrs_on_my_intf_v6" in calls
+        if not (v4 or v6):
+            continue
+        n += 1
+        # which question types can take this path?
+        for k, want in (("A", (True, False)), ("AAAA", (False, True)), ("ANY", (True, True))):
+            if (v4, v6) != want and q.d.check(p.cond + [qt == ids[k]], f"classify: can a {k} question take path {i}?")[0] != "unsat":
+                q.fail.append((f"a question of type {k} on a host name is answered from the wrong address families (IPv4 looked up: {v4}, IPv6 looked up: {v6})", f"path {i}"))
+        if ex.feasible(p.cond + [z3.Or(*[qt == v for v in ids.values()])]):
+            q.nontrivial += 1   # (paths only other question types could take lie outside the enclosing A|AAAA|ANY guard)
+    if n == 0:
+        q.unknown.append("no path of the address-question loop looks addresses up")
+    else:
+        q.nontrivial += 1
+    q.fail = q.fail[:4]
     return q.result()
 
 
@@ -2639,14 +2777,14 @@ def c07_reannounce_delay(ctx):
 
 SPECS = {
     "C11": [c11_new_lifetime, c11_predicates, c11_refresh_schedule, c11_reset_restarts, c11_cache_flush_rule, c11_addr_lookup_lowercase, c11_hostname_refresh_guard],
-    "C10": [c10_update_ttl, c10_known_answer_filter, c10_suppressed_ptr_no_additionals],
+    "C10": [c10_update_ttl, c10_known_answer_filter, c10_suppressed_ptr_no_additionals, c10_known_answer_wire_ttl],
     "C05": [c05_reset_restores, c05_verify_deadline, c05_verify_shortens_only, c05_evict_predicate, c05_removed_addr_key, c11_cache_flush_rule],
     "C18": [c18_affected_host_lowercase, c11_cache_flush_rule, c18_intf_removed_purges_both, c18_deleted_before_added],
     "C07": [c07_probe_clock, c07_reannounce_delay, c07_check_probing_paths, c07_resend_lookup_key, c07_announced_means_sent, c12_probe_timers],
     "C12": [c12_poll_timeout, c12_ipcheck_rearm, c12_hostname_timeout_timer, c12_hostname_timeout_due, c12_response_record_timers, c12_rerun_has_timer, c12_probe_timers, c12_conflict_probe_timer, c12_tiebreak_retry_timer, c11_cache_flush_rule, c05_verify_deadline, c07_check_probing_paths],
-    "C19": [c19_browse_backoff, c19_hostname_backoff, c19_resolve_retry, c19_initial_delay, c19_rerun_due, c19_browse_listener_gone],
+    "C19": [c19_browse_backoff, c19_hostname_backoff, c19_hostname_timeout_guard, c19_resolve_retry, c19_initial_delay, c19_rerun_due, c19_browse_listener_gone],
     "C08": [c08_tiebreak_count_operands, c08_rename_by_record_kind, c08_answer_uses_resolved_host, c06_additionals_use_resolved_names],
-    "C06": [c06_additionals_use_resolved_names, c06_answer_only_when_announced],
+    "C06": [c06_additionals_use_resolved_names, c06_answer_only_when_announced, c06_address_families_by_qtype],
     "C16": [c16_decode_txt_step, c16_first_key_wins, c16_prop_len_check],
     "C01": [c01_name_cap_operand],
     "C15": [c01_name_cap_operand, c16_decode_txt_step],
